@@ -3,7 +3,8 @@ use crate::util::Rng;
 
 const MODS: [&str; 12] = ["alpha", "beta", "rc", "pre", "pl", "nb", "ALPHA", "Beta", "RC", "Pre", "PL", "NB"];
 const PUNCT: [&str; 12] = ["+", "~", "-", ":", "/", " ", "@", "!", ",", "=", "*", "^"];
-const UNI: [&str; 14] = ["é", "ß", "Ω", "日", "💖", "\u{85}", "²", "½", "٣", "３", "Ａ", "ǅ", "Ⅷ", "\u{660}"];
+// incl. characters whose Unicode case mapping is ASCII (KELVIN SIGN -> k, İ -> i + dot, ſ -> S, ı -> I, ﬁ -> FI)
+const UNI: [&str; 19] = ["é", "ß", "Ω", "日", "💖", "\u{85}", "²", "½", "٣", "３", "Ａ", "ǅ", "Ⅷ", "\u{660}", "\u{212A}", "\u{130}", "\u{17F}", "\u{131}", "\u{FB01}"];
 
 fn digits(rng: &mut Rng, wild: bool) -> String {
     let len = match rng.below(10) {
